@@ -11,4 +11,7 @@ const shamtMask = 31
 
 type RVUInt = uint32
 
+// 寄存器对应的有符号整数
+type RVInt = int32
+
 var _ device.CPU = (*CPU)(nil)
